@@ -6,7 +6,7 @@ Open Scope N_scope.
 
 Definition plain_ctor : ctor_args :=
   {| a_eph := TNone; a_hsdir := false; a_auth := ANone; a_stealth_kw := false; a_key := KNone; a_ver := VNone; a_single := TNone |}.
-Definition cfg_of (r : route) : cfg := {| g_route := r; g_pub := 80; g_bound := 45017; g_pending := false; g_bind_ok := true; g_two_clients := false |}.
+Definition cfg_of (r : route) : cfg := {| g_route := r; g_pub := 80; g_bound := 45017; g_pending := false; g_bind_ok := true; g_two_clients := false; g_same_dir := false |}.
 
 (* ---- regression anchors: the witnesses of the repaired findings C17-F1 (64ae05b) and C17-F2 (d08dcab) ---- *)
 Definition refused_only : list lrec := [{| l_evs := [ORefused]; l_open := 0 |}].
@@ -53,6 +53,15 @@ Proof.
     split; intros; try discriminate; auto.
 Qed.
 
+Lemma config_ready_kinv c q s evs :
+  config_ready c q = (s, evs) ->
+  Kinv s /\ (has_failure evs = true -> p_ph s = POver false).
+Proof.
+  unfold config_ready. intros H.
+  destruct (negb (g_bind_ok c)); [|destruct (negb (q_eph q) && q_hsdir q && g_same_dir c)];
+    inversion H; subst; unfold Kinv; cbn; split; intros; try discriminate; auto.
+Qed.
+
 Lemma lstep_noleak c q s o s' evs :
   lstep_model c q s o = (s', evs) -> Kinv s ->
   Kinv s' /\ (has_failure evs = true -> p_ph s' = POver false) /\ (p_ph s = POver false -> p_ph s' = POver false).
@@ -61,8 +70,7 @@ Proof.
   destruct (p_ph s) as [|m|ok] eqn:Ph.
   - (* awaiting config *)
     destruct o as [| | |d| |]; try (inversion H; subst; unfold Kinv; cbn; rewrite ?Ph; repeat split; intros; try discriminate; auto; fail).
-    unfold config_ready in H. destruct (negb (g_bind_ok c));
-      inversion H; subst; unfold Kinv; cbn; repeat split; intros; try discriminate; auto.
+    destruct (config_ready_kinv _ _ _ _ H) as (K1 & K2). refine (conj K1 (conj K2 _)). intros X; discriminate X.
   - destruct o as [| | |d| |]; try (inversion H; subst; unfold Kinv; cbn; rewrite ?Ph; repeat split; intros; try discriminate; auto; fail).
     + (* HS_DESC / answer *)
       assert (G : forall hok m' e15, on_done hok s m' e15 = (s', evs) ->
@@ -111,9 +119,8 @@ Proof.
     rewrite E0. cbn [orb negb andb].
     destruct (listen_call c q) as [s evs] eqn:E. cbn [no_leak lsnap l_evs l_open].
     assert (G : Kinv s /\ (has_failure evs = true -> p_ph s = POver false)).
-    { unfold listen_call, config_ready in E.
-      destruct (g_pending c); [|destruct (negb (g_bind_ok c))];
-        inversion E; subst; unfold Kinv; cbn; split; intros; try discriminate; auto. }
+    { unfold listen_call in E. destruct (g_pending c); [|exact (config_ready_kinv _ _ _ _ E)].
+      inversion E; subst; unfold Kinv; cbn; split; intros; try discriminate; auto. }
     destruct G as (HK & Hf). apply andb_true_iff. split.
     + destruct (has_failure evs) eqn:F; [|reflexivity]. cbn. destruct (HK (Hf eq_refl)) as (Ho & _). now rewrite Ho.
     + apply lrun_from_noleak; auto.
@@ -167,8 +174,10 @@ Lemma config_ready_lm c q s evs :
   exists nl nc b, loopback_and_mapping_evs c 0 0 false evs = ((nl, nc, b), true) /\ (nl <= 1)%nat /\ (nc <= 1)%nat
                   /\ p_ph s <> PCfg.
 Proof.
-  unfold config_ready. destruct (negb (g_bind_ok c)); intros H; inversion H; subst; cbn.
+  unfold config_ready. destruct (negb (g_bind_ok c)); [|destruct (negb (q_eph q) && q_hsdir q && g_same_dir c)];
+    intros H; inversion H; subst; cbn.
   - exists 1%nat, 0%nat, false. repeat split; auto; discriminate.
+  - exists 1%nat, 0%nat, true. repeat split; auto; discriminate.
   - rewrite !N.eqb_refl. cbn. exists 1%nat, 1%nat, true. repeat split; auto; discriminate.
 Qed.
 
@@ -296,8 +305,8 @@ Definition refused_ok (r : route) : bool :=
 Lemma refused_ok_all r : refused_ok r = true.
 Proof. destruct r as [a|t|s]; all_fields; vm_compute; reflexivity. Qed.
 
-Lemma invalid_refused_early r pub bound pend bind two ops :
-  let c := {| g_route := r; g_pub := pub; g_bound := bound; g_pending := pend; g_bind_ok := bind; g_two_clients := two |} in
+Lemma invalid_refused_early r pub bound pend bind two same ops :
+  let c := {| g_route := r; g_pub := pub; g_bound := bound; g_pending := pend; g_bind_ok := bind; g_two_clients := two; g_same_dir := same |} in
   valid c = false -> lrun c ops = [{| l_evs := [ORefused]; l_open := 0 |}].
 Proof.
   intros c Hv. pose proof (refused_ok_all r) as H. unfold refused_ok in H.
@@ -332,33 +341,37 @@ Definition fault_scripts : list (list lop) :=
     [LDesc Reply; ev15 KUpload 1 1; LDisconnect; LStop];
     [LDesc Reply; ev15 KUpload 1 1; ev15 KUploaded 1 1; LDisconnect; LStop];
     [ev15 KUpload 2 1; LDesc Reply; ev15 KUpload 1 1; ev15 KFailed 2 1; ev15 KUpload 1 2; ev15 KFailed 1 1];
-    [LDesc Reply; LStop] ].
+    [LDesc Reply; LStop];
+    [LDesc Reply; ev15 KFailed 1 1; ev15 KUpload 1 1; ev15 KUpload 1 2; ev15 KUploaded 1 2; LStop] ].
 
-Definition known_finding (c : cfg) (ops : list lop) : bool := disconnect_while_waiting c ops || stealth_several_clients c.
+Definition known_finding (c : cfg) (ops : list lop) : bool :=
+  disconnect_while_waiting c ops || stealth_several_clients c || directory_already_configured c.
 
 Definition product_ok (r : route) : bool :=
-  forallb (fun two => forallb (fun pend => forallb (fun bind => forallb (fun ops =>
+  forallb (fun same => forallb (fun two => forallb (fun pend => forallb (fun bind => forallb (fun ops =>
     let c := {| g_route := r; g_pub := 80; g_bound := 45017; g_pending := pend; g_bind_ok := bind;
-                g_two_clients := two |} in
+                g_two_clients := two; g_same_dir := same |} in
     negb (wf c ops) || known_finding c ops || oracle c ops (lrun c ops))
-    fault_scripts) [false; true]) [false; true]) [false; true].
+    fault_scripts) [false; true]) [false; true]) [false; true]) [false; true].
 
 Lemma product_ok_all r : product_ok r = true.
 Proof. destruct r as [a|t|s]; all_fields; vm_compute; reflexivity. Qed.
 
-Lemma oracle_on_product r pend bind two ops :
+Lemma oracle_on_product r pend bind two same ops :
   In ops fault_scripts ->
-  let c := {| g_route := r; g_pub := 80; g_bound := 45017; g_pending := pend; g_bind_ok := bind; g_two_clients := two |} in
+  let c := {| g_route := r; g_pub := 80; g_bound := 45017; g_pending := pend; g_bind_ok := bind; g_two_clients := two; g_same_dir := same |} in
   wf c ops = true -> disconnect_while_waiting c ops = false -> stealth_several_clients c = false ->
+  directory_already_configured c = false ->
   oracle c ops (lrun c ops) = true.
 Proof.
-  intros Hin c Hw H3 H4. pose proof (product_ok_all r) as H. unfold product_ok in H.
+  intros Hin c Hw H3 H4 H5. pose proof (product_ok_all r) as H. unfold product_ok in H.
   assert (Hb2 : forall b : bool, In b [false; true]) by (intros []; cbn; auto).
+  rewrite forallb_forall in H. specialize (H same (Hb2 same)).
   rewrite forallb_forall in H. specialize (H two (Hb2 two)).
   rewrite forallb_forall in H. specialize (H pend (Hb2 pend)).
   rewrite forallb_forall in H. specialize (H bind (Hb2 bind)).
   rewrite forallb_forall in H. specialize (H ops Hin). cbn beta zeta in H.
-  fold c in H. unfold known_finding in H. rewrite Hw, H3, H4 in H. exact H.
+  fold c in H. unfold known_finding in H. rewrite Hw, H3, H4, H5 in H. exact H.
 Qed.
 
 Lemma stealth_two_clients_refuted :
@@ -366,7 +379,7 @@ Lemma stealth_two_clients_refuted :
 Proof.
   exists {| g_route := RCtor {| a_eph := TNone; a_hsdir := true; a_auth := AStealth; a_stealth_kw := false;
                                 a_key := KNone; a_ver := V2; a_single := TNone |};
-            g_pub := 80; g_bound := 45017; g_pending := false; g_bind_ok := true; g_two_clients := true |},
+            g_pub := 80; g_bound := 45017; g_pending := false; g_bind_ok := true; g_two_clients := true; g_same_dir := false |},
          [LDesc Reply; LDesc (Ev KUpload 1 1); LDesc (Ev KUploaded 1 1)].
   vm_compute. auto.
 Qed.
@@ -375,8 +388,29 @@ Qed.
 Lemma basic_two_clients_reported :
   let c := {| g_route := RCtor {| a_eph := TNone; a_hsdir := false; a_auth := ABasic; a_stealth_kw := false;
                                   a_key := KNone; a_ver := V2; a_single := TNone |};
-              g_pub := 80; g_bound := 45017; g_pending := false; g_bind_ok := true; g_two_clients := true |} in
+              g_pub := 80; g_bound := 45017; g_pending := false; g_bind_ok := true; g_two_clients := true; g_same_dir := false |} in
   let ops := [LDesc Reply; LDesc (Ev KUpload 1 1); LDesc (Ev KUploaded 1 1)] in
   oracle c ops (lrun c ops) = true
   /\ flat_map (fun r => results (l_evs r)) (lrun c ops) = [LOk true true true].
+Proof. vm_compute. auto. Qed.
+
+Lemma already_configured_refuted :
+  exists c ops, wf c ops = true /\ disconnect_while_waiting c ops = false /\ stealth_several_clients c = false
+    /\ oracle c ops (lrun c ops) = false.
+Proof.
+  exists {| g_route := RCtor {| a_eph := TNone; a_hsdir := true; a_auth := ANone; a_stealth_kw := false;
+                                a_key := KNone; a_ver := VNone; a_single := TNone |};
+            g_pub := 80; g_bound := 45017; g_pending := false; g_bind_ok := true; g_two_clients := false;
+            g_same_dir := true |}, [LStop].
+  vm_compute. auto.
+Qed.
+
+(* regression anchor for the repaired C17-F6 (fix 0104264): the already-configured directory next to an
+   authenticated service no longer raises; what remains is C17-F5 (nothing is sent to Tor) *)
+Lemma already_configured_no_leak_now_accepted :
+  let c := {| g_route := RCtor {| a_eph := TNone; a_hsdir := true; a_auth := ANone; a_stealth_kw := false;
+                                  a_key := KNone; a_ver := VNone; a_single := TNone |};
+              g_pub := 80; g_bound := 45017; g_pending := false; g_bind_ok := true; g_two_clients := false;
+              g_same_dir := true |} in
+  no_leak false (lrun c []) = true /\ flat_map (fun r => results (l_evs r)) (lrun c []) = [LOk true true true].
 Proof. vm_compute. auto. Qed.
